@@ -120,8 +120,7 @@ def build():
     A = reg.add
     PR = ["C20"]
     A(Contract(f"{LM}:AwareASTNode.get_child_nodes", params={"self": "Ref"}, returns="Seq[Ref]", props=PR, trusted=True,
-               trusted_reason="definition of lkids: the loop over the dataclass fields that yields every child node in field order (reflection over fields(); bounded-checked by rt.c20 against a "
-                              "reference walk)", ensures=["result == lkids(self)"]))
+               trusted_reason="proved in contracts.legacy_children: the flattening of the child fields in field order (lkids_def), for well-typed children", ensures=["result == lkids(self)"]))
     TD, BU = "clpre(filter, prune, unit(self))", "bottom_up_rest(filter, prune, unit(self))"
     TDS, BUS = "clpre(filter, prune, lkids(self))", "clpost(filter, prune, lkids(self))"
     A(Contract(f"{LM}:AwareASTNode.dfs", params={"self": "Ref", "prune": "Opt[Fn]", "filter": "Opt[Fn]", "bottom_up": "bool", "skip_self": "bool"}, returns="Seq[Ref]", props=PR,
